@@ -67,4 +67,13 @@ PROPS = {
                            "ground-truth statement (frozen quorum at the instant of promotion on the servers)": "partial: decided by the monitor on the fake servers (no Coq world model of MySQL yet)",
                            "literal 'not totally ordered => abort'": "the code aborts iff no maximum exists (C01_splitbrain_iff_no_maximum); with a maximum and incomparable lower elements it promotes safely - a gap between the property text and the code, see DESIGN.md F11"},
     },
+    "C17": {
+        "corr": ["Corr/C17.vo"],
+        "harness": [{"pkg": APP, "test": "TestVerifC17"}],
+        "trusted": ["fake MySQL/DCS; zones computed by the real getAvailabilityZone and handed to the model as a map; the zone percentage floor(100*k/t) is float64 in Go and integer division in the model (equal for these magnitudes)",
+                    "Go map iteration order of the pass is reconstructed from the observed host-specific calls; hosts that only read the shared rate limiter are tried at every position (the model must replay under one candidate order)",
+                    "Seconds_Behind_Source is NULL when a replication thread is stopped, so the permanently-broken path is reachable only with a lag source that still reports (harness flag LagAlways)"],
+        "assumptions": ["shares are evaluated on the manager's view of the pass (a master whose state could not be read counts as a replica of its zone)"],
+        "theorem_status": {"all": "full over oracle semantics, for every order and every value of the per-pass counters; the at-most-one-per-interval clause for broken replicas is decided by the monitor across passes"},
+    },
 }
